@@ -149,6 +149,9 @@ func ed25519VerifyGates(c *an.Check) {
 		an.FactReq("len(data)==32", func(s *an.State, x, y ssa.Value, r an.Rel) bool {
 			return r == an.EQ && an.IsIntConst(y, 32) && an.LenOf(s, x, func(a ssa.Value) bool { return an.IsParam(a, 0) })
 		})}})
+	// the generic public-key decoder under every embedded / sender key: success only past protobuf decode and the registry
+	c.Gate(an.GateSpec{Construct: "crypto.UnmarshalPublicKey success-return", Fn: p.Func("crypto", "", "UnmarshalPublicKey"), Sink: successReturn, Reqs: []an.Req{
+		an.CallOK("protobuf decodes", an.R("crypto", "PublicKey", "UnmarshalVT")), an.CallOK("PublicKeyFromProto ok", an.R("crypto", "", "PublicKeyFromProto"))}})
 	vf := p.Func("crypto", "Ed25519PublicKey", "Verify")
 	kF := fv(c, "crypto", "Ed25519PublicKey", "k")
 	if vf == nil || kF == nil {
